@@ -102,6 +102,12 @@ CHECKS["C16"] = dict(level="model_checking", design="DESIGN.md §6 C16, Appendix
          "constraints at every items level; nil is not validated. Three known deviations are named operators honoured while their witness fails.",
     note="Bounds are integers (C13 owns fractional bounds and float tolerances). Trusted: typed-value encoder, regexp/registry facts.")
 
+CHECKS["C07"] = dict(level="exploration", design="DESIGN.md §6 C07, §3.1 SpecValidator",
+    technique="explicit TLA+ phase machine SpecValidator.tla (model-checked: every run returns) bound by trace validation: phase traces recorded through the verifPhase hook over an edit universe of loadable documents must be runs of the machine ending with return (Trace_SpecRun.tla)",
+    text="Exploration, spec-checked. Every loadable edited document is validated in both modes; TLC checks that the run returned two results and that the recorded phase list is a path of the phase machine "
+         "(order, early-stop guards, errors never retracted).",
+    note="Detection power is the edit universe (all single edits of the bases in the thorough tier). 60 s watchdog for termination.")
+
 NOT_YET = {}
 
 
